@@ -79,6 +79,7 @@ func main() {
 			defer os.RemoveAll(dir)
 		}
 	}
+	core.KnownFuncs = knownFuncs(*verif)
 	p, err := core.Load(analysed, *goarch)
 	if err != nil && analysed != abs {
 		// the renamed copy does not build (an identifier the alignment could not rename consistently): fall back
@@ -274,4 +275,27 @@ func failAll(prop, tier string, seed int, out string, err error, start time.Time
 		path, _ := res.WriteViolations(out)
 		fmt.Printf("VIOLATION property=%s replay=%s\n", id, path)
 	}
+}
+
+// knownFuncs: the functions of the reference inventory, as "pkg.Owner.name".
+func knownFuncs(verif string) map[string]bool {
+	out := map[string]bool{}
+	b, err := os.ReadFile(filepath.Join(verif, "spec", "names.json"))
+	if err != nil {
+		return out
+	}
+	var inv struct {
+		Entities []struct {
+			Kind, Pkg, Owner, Name string
+		} `json:"entities"`
+	}
+	if json.Unmarshal(b, &inv) != nil {
+		return out
+	}
+	for _, e := range inv.Entities {
+		if e.Kind == "func" {
+			out[e.Pkg+"."+e.Owner+"."+e.Name] = true
+		}
+	}
+	return out
 }
